@@ -1,13 +1,14 @@
 CONSTANTS
   Leaves = {"c1", "c2"}
-  Relays = {"r1"}
+  Relays = {"r1", "r2"}
   Home <- MCHome
+  RHome <- MCRHome
   TaskIds = {"t1", "t2"}
   Payloads = {"x", "y"}
   Auto = {"c2"}
   QCap = 2
 SPECIFICATION Spec
 CONSTRAINT Small
-INVARIANTS TargetOnly BroadcastReaches Bounded
+INVARIANTS TargetOnly BroadcastReaches Bounded TreeUp
 PROPERTIES ReportOnlyToNamed NoDeliveryAfterRemove OncePerEvent
 CHECK_DEADLOCK FALSE
